@@ -84,6 +84,10 @@ func init() {
 				r := c.Rng
 				spc := genSpec(r, genOpts{maxParts: 3, maxFiles: 2, noFails: true, smallContent: true})
 				spc.Boundary = ""
+				if r.Chance(20) {
+					// a boundary chosen by the caller (WithBoundary / SetBoundary): it belongs to ONE multipart
+					spc.Boundary = []string{"user-boundary-123", "b", "=_caller_chosen_=", "0123456789012345678901234567890123456789012345678901234567890123456789"}[r.Intn(4)]
+				}
 				if len(spc.Parts)+len(spc.Files) == 0 {
 					continue // nothing to sign
 				}
